@@ -6,9 +6,9 @@ Import ListNotations.
 Open Scope Z_scope.
 
 Definition dresp_gen : istate -> istate := tbl_get direct_resp_table.
-Definition pstep_gen := pstep sco_queue_cap dresp_gen direct_raise_resp.
-Definition prun_gen := prun sco_queue_cap dresp_gen direct_raise_resp.
-Definition pversions_gen := pversions sco_queue_cap dresp_gen direct_raise_resp.
+Definition pstep_gen := pstep sco_queue_cap dresp_gen direct_raise_resp sco_full_queue_loses_wait.
+Definition prun_gen := prun sco_queue_cap dresp_gen direct_raise_resp sco_full_queue_loses_wait.
+Definition pversions_gen := pversions sco_queue_cap dresp_gen direct_raise_resp sco_full_queue_loses_wait.
 
 Definition completing_gen : istate -> bool := in_states consumer_completing.
 Definition nonfinal_gen : istate -> bool := in_states consumer_nonfinal.
@@ -17,7 +17,9 @@ Definition crun_gen := crun recent_cap consumer_keeps_early_parts completing_gen
 
 (* the code as found, before the repairs proposed in fixes/C09_*.diff: direct processing answers Fin
    whatever the handler returned; a completing response drops the parts that arrived before it *)
-Definition prun_orig := prun sco_queue_cap (fun _ => Fin) Fail.
+Definition prun_orig := prun sco_queue_cap (fun _ => Fin) Fail false.
+(* an enqueue that swallows queue.Full: the request is answered Wait, nothing is queued *)
+Definition prun_lostwait := prun sco_queue_cap dresp_gen direct_raise_resp true.
 Definition crun_orig := crun recent_cap false completing_gen nonfinal_gen.
 (* a notification handler that buffers the parts of unknown transactions after it has left the critical section *)
 Definition urun_gen := urun recent_cap consumer_keeps_early_parts completing_gen nonfinal_gen.
@@ -29,6 +31,7 @@ Definition gen_ok : bool :=
   && forallb (fun s => implb (completing_gen s) (final s)) all_states
   && forallb (fun s => Bool.eqb (nonfinal_gen s) (negb (final s))) all_states
   && consumer_keeps_early_parts && txid_under_lock && consumer_state_under_lock
+  && negb sco_full_queue_loses_wait
   && (0 <? Z.of_nat recent_cap) && (0 <? Z.of_nat sco_queue_cap).
 
 (* ---- provider correspondence.  The harness steps the real worker with two operations: a request, or
